@@ -262,3 +262,55 @@ func c17SharedPointerSites(c *Ctx, now int) {
 		}
 	}
 }
+
+// c17BoundaryDocs: fixed shapes at the size boundaries the random documents rarely hit — 0 / 1 / 64 /
+// 65 living or dead people under one index letter, a living person being the first / the last / the
+// only entry of a letter page, of a place and of a family.
+func c17BoundaryDocs(r *Rand, now int) []*c17Doc {
+	mk := func(d *c17Doc, kind string, letter byte, rank string) *c17Person {
+		p := &c17Person{id: len(d.people), kind: kind, sex: "MF"[len(d.people)%2 : len(d.people)%2+1], role: map[string]bool{"boundary": true}, asso: -1}
+		p.living = strings.HasPrefix(kind, "living")
+		c17private(r, p, now, 0)
+		// all under one index letter; rank orders the people of the letter ("a…" first, "z…" last)
+		p.surname = string(letter) + strings.ToLower(p.surname[1:])
+		p.given = strings.ToUpper(rank[:1]) + rank[1:] + strings.ToLower(p.given)
+		p.altG, p.altS, p.nick = "", "", ""
+		d.people = append(d.people, p)
+		return p
+	}
+	var docs []*c17Doc
+	for variant := 0; variant < 2; variant++ {
+		d := &c17Doc{source: true}
+		nl, nd := 65, 64
+		if variant == 1 {
+			nl, nd = 64, 65
+		}
+		for i := 0; i < nl; i++ { // letter L: living people only
+			mk(d, "living-young", 'L', "m")
+		}
+		first := mk(d, "living-young", 'M', "a") // letter M: a living person first, dead people, a living person last
+		for i := 0; i < nd; i++ {
+			mk(d, "dead-deat", 'M', "m")
+		}
+		last := mk(d, "living-nodates", 'M', "z")
+		mk(d, "dead-deat", 'N', "m")                   // letter N: exactly one dead person
+		only := mk(d, "living-age-rule", 'P', "m")     // letter P: exactly one living person
+		deadR := mk(d, "dead-deat", 'R', "m")          // letter R: one dead and one living person
+		livR := mk(d, "living-exact-threshold", 'R', "n")
+		// a place shared by a living person (earliest), a dead one and a living one (latest)
+		shared := "Sharedplq" + fmt.Sprint(variant) + ", Oz"
+		first.birth, first.birthPl = fmt.Sprintf("1 Jan %d", now-90), shared
+		deadR.birth, deadR.birthPl = fmt.Sprintf("1 Jan %d", now-60), shared
+		livR.birthPl = shared
+		only.birthPl = "Onlyplq" + fmt.Sprint(variant) + ", Oz" // a place that only a living person has
+		// families: all members living; living first and last child around a dead one; a dead couple
+		// with a single living child
+		d.fams = append(d.fams,
+			&c17Family{husb: first.id, wife: last.id, chil: []int{only.id}, marr: "1 Jan 2000", marrPl: "Marrtown, Oz"},
+			&c17Family{husb: deadR.id, wife: -1, chil: []int{first.id, deadR.id + 0, last.id}},
+			&c17Family{husb: nl + 1, wife: nl + 2, chil: []int{livR.id}},
+			&c17Family{husb: -1, wife: -1})
+		docs = append(docs, d)
+	}
+	return docs
+}
